@@ -491,8 +491,8 @@ class Gen:
             sp = {'align': r.choice('<>^'), 'width': max(0, self.width(n)) if r.random() < 0.9 else None}
             if r.random() < 0.7:
                 sp['fill'] = r.choice([' ', '*', ':', '+', '-', '0', '5', 'é', '<', '>', '^'])
-                if r.random() < 0.5:
-                    sp['flag'] = r.choice('+-')
+                if r.random() < 0.5 or sp['fill'] in '+-':
+                    sp['flag'] = r.choice('+-')      # a lone '+'/'-' before the alignment could be read as the flag
             if sp.get('width') is None:
                 sp.pop('width')
         verb = [i for i in self.atoms if atoms.CATALOGUE[i].kind == 'verb' and ':' not in atoms.CATALOGUE[i].arg]
